@@ -445,6 +445,15 @@ def tie(ctx):
         else:
             rng.shuffle(poss)
         batches.append(observe_batch(poss, rng.choice([0, 1])))
+    # corpus-sized batches (hundreds to thousands of rows, around powers of two): every row is still
+    # the position's own encoding, whatever chunking or buffer growth happens inside
+    for n in ([513, 1025, 2049, 700, 4100] if ctx.thorough else [513, 1030, 2051]):
+        poss = [rng.choice(ok_pool) for _ in range(n)]
+        if n % 2:
+            # a few wide rows late in the batch (the buffer widens after many rows were written)
+            poss[-3:] = by_len_late = sorted(ok_pool, key=lambda p: enc_len[id(p)])[-3:]
+        batches.append(observe_batch(poss, rng.choice([0, 1])))
+        ctx.count("batch:large(>512 rows)")
     # sessions of calls whose results are all held: a batch, then a smaller one (fewer rows AND
     # narrower), a larger one, one of equal shape, the same positions with the other flag, the
     # empty batch, a single position, and the first batch again
